@@ -26,6 +26,35 @@
 #include <adept/exception.h>
 #include <adept/Statement.h>
 
+#ifdef RJHOGAN_ADEPT_2_VERIF
+#include <vector>
+#include <utility>
+namespace adept {
+  namespace verif {
+    // Verification hook: optional event trace of the recording buffers and a record of
+    // attempted writes at or beyond the allocated capacity (which are then skipped)
+    struct BufferLog {
+      bool trace;
+      long violations;
+      long first_violation_index, first_violation_capacity;
+      char first_violation_site;
+      std::vector<std::pair<char,long> > events;
+      BufferLog() : trace(false), violations(0), first_violation_index(-1),
+		    first_violation_capacity(-1), first_violation_site(' ') { }
+      void event(char kind, long n) { if (trace) events.push_back(std::make_pair(kind, n)); }
+      void capacity_violation(char site, long index, long capacity) {
+	if (violations++ == 0) {
+	  first_violation_site = site; first_violation_index = index;
+	  first_violation_capacity = capacity;
+	}
+	event('V', index);
+      }
+    };
+    inline BufferLog& buffer_log() { static BufferLog log; return log; }
+  }
+}
+#endif
+
 namespace adept {
   namespace internal {
 
@@ -51,6 +80,13 @@ namespace adept {
 	// of the code slower)
 	if (multiplier != 0.0) {
 #endif
+#ifdef RJHOGAN_ADEPT_2_VERIF
+	  verif::buffer_log().event('P', n_operations_);
+	  if (n_operations_ >= n_allocated_operations_) {
+	    verif::buffer_log().capacity_violation('P', n_operations_, n_allocated_operations_);
+	    return;
+	  }
+#endif
 	  multiplier_[n_operations_] = multiplier;
 	  index_[n_operations_++] = gradient_index;
 	
@@ -71,6 +107,14 @@ namespace adept {
       // multipliers will be added later.
       template <Index Num, Index Stride>
       void push_rhs_indices(const uIndex& gradient_index) {
+#ifdef RJHOGAN_ADEPT_2_VERIF
+	verif::buffer_log().event('I', Num*1000+Stride);
+	if (n_operations_+(Num-1)*Stride >= n_allocated_operations_) {
+	  verif::buffer_log().capacity_violation('I', n_operations_+(Num-1)*Stride,
+						 n_allocated_operations_);
+	  return;
+	}
+#endif
 	for (Index i = 0; i < Num; ++i) {
 	  index_[n_operations_+i*Stride] = gradient_index+i;
 	}
@@ -86,6 +130,13 @@ namespace adept {
 #ifndef ADEPT_MANUAL_MEMORY_ALLOCATION
 	if (n_statements_ >= n_allocated_statements_) {
 	  grow_statement_stack();
+	}
+#endif
+#ifdef RJHOGAN_ADEPT_2_VERIF
+	verif::buffer_log().event('L', n_statements_);
+	if (n_statements_ >= n_allocated_statements_) {
+	  verif::buffer_log().capacity_violation('L', n_statements_, n_allocated_statements_);
+	  return;
 	}
 #endif
 	statement_[n_statements_].index = gradient_index;
@@ -106,6 +157,13 @@ namespace adept {
 	  grow_statement_stack(n);
 	}
 #endif
+#ifdef RJHOGAN_ADEPT_2_VERIF
+	verif::buffer_log().event('R', n);
+	if (n_statements_+n > n_allocated_statements_) {
+	  verif::buffer_log().capacity_violation('R', n_statements_+n-1, n_allocated_statements_);
+	  return;
+	}
+#endif
 	for (uIndex i = first; i < last_plus_1; i += stride) {
 	  statement_[n_statements_].index = i;
 	  statement_[n_statements_++].end_plus_one = n_operations_;
@@ -115,6 +173,9 @@ namespace adept {
       // Check whether the operation stack contains enough space for n
       // new operations; if not, grow it
       void check_space(uIndex n) {
+#ifdef RJHOGAN_ADEPT_2_VERIF
+	verif::buffer_log().event('C', n);
+#endif
 	if (n_allocated_operations_ < n_operations_+n+1) {
 	  grow_operation_stack(n);
 	}
